@@ -26,17 +26,20 @@ pub fn attach(bytes: &[u8], o: DwarfOpts) -> Option<Vec<u8>> {
     let code = m.code_at as u64;
     let encoding = Encoding { format: Format::Dwarf32, version: o.version, address_size: 4 };
     let mut dwarf = gw::DwarfUnit::new(encoding);
-    let comp_dir = gw::LineString::String(b"/src".to_vec());
-    let comp_file = gw::LineString::String(b"main.c".to_vec());
+    // all names of one line program share one string form: inline (any version), or a reference into .debug_str /
+    // .debug_line_str (version 5); which one depends on the module so that all three occur
+    let form = if o.version >= 5 { bytes.len() % 3 } else { 0 };
+    let mut mk = |dwarf: &mut gw::DwarfUnit, t: &[u8]| match form {
+        1 => gw::LineString::StringRef(dwarf.strings.add(t)),
+        2 => gw::LineString::LineStringRef(dwarf.line_strings.add(t)),
+        _ => gw::LineString::String(t.to_vec()),
+    };
+    let comp_dir = mk(&mut dwarf, b"/src");
+    let comp_file = mk(&mut dwarf, b"main.c");
     let mut program = gw::LineProgram::new(encoding, LineEncoding::default(), comp_dir, comp_file.clone(), None);
     let dir = program.default_directory();
-    // file names in each of the three string forms (inline, .debug_str reference, .debug_line_str reference -- the last is v5 only)
-    let file1 = program.add_file(gw::LineString::StringRef(dwarf.strings.add(&b"a.c"[..])), dir, None);
-    let file2 = if o.version >= 5 {
-        program.add_file(gw::LineString::LineStringRef(dwarf.line_strings.add(&b"b.c"[..])), dir, None)
-    } else {
-        program.add_file(gw::LineString::String(b"b.c".to_vec()), dir, None)
-    };
+    let file1 = program.add_file(mk(&mut dwarf, b"a.c"), dir, None);
+    let file2 = program.add_file(mk(&mut dwarf, b"b.c"), dir, None);
     let locals: Vec<&absmod::AbsFunc> = m.funcs.iter().filter(|f| !f.imported).collect();
     if locals.is_empty() {
         return None;
